@@ -88,7 +88,7 @@ func runExplorer(run *report.Run, check string, e *explore.Explorer) {
 	}
 	run.Parts = append(run.Parts, map[string]interface{}{
 		"config": e.Cfg.Name, "states": e.States, "transitions": e.Transitions, "self_loops": e.NoOps,
-		"depth": e.Depth, "closed": e.Exhaustive, "all_histories_up_to_depth_bound": e.BoundDone, "blocked": e.Blocked, "alphabet": len(e.Ops),
+		"depth": e.Depth, "closed": e.Exhaustive, "stopped_at_the_closure_depth_cap": e.DepthCapHit, "all_histories_up_to_depth_bound": e.BoundDone, "blocked": e.Blocked, "alphabet": len(e.Ops),
 		"findings": len(e.Findings), "wall_s": time.Since(t0).Seconds(), "dedup": world.HookAvailable,
 	})
 	if len(run.Samples) < 6 && len(e.SampleHists) > 0 {
